@@ -103,9 +103,10 @@ def gen_op(r: random.Random, model: A.Model, *, scoped_bias=0.15, failing_bias=0
 
 def run_op(src_or_text, op, path, value):
     """Apply one op.  Returns ('ok', out_text) | ('raise', exc)"""
-    src = nima.parse(src_or_text) if isinstance(src_or_text, str) else src_or_text
+    src = None
     try:
         with guard.time_limit(15):
+            src = nima.parse(src_or_text) if isinstance(src_or_text, str) else src_or_text
             if op == "set":
                 return "ok", nima.set_value(src, path, value), src
             return "ok", nima.remove_value(src, path), src
